@@ -76,7 +76,8 @@ def main():
         finally:
             shutil.rmtree(tmp, ignore_errors=True)
         expect = []
-        own = [c for c in meta["caught_sites"] if c.startswith(meta["property"] + ".")]
+        own = list(meta.get("own_check", {}).get("reported") or []) or [c for c in meta["caught_sites"] if c.startswith(meta["property"] + ".")]
+        own = [c for c in own if not c.endswith(" vacuity")] or own
         for cs in (own or meta["caught_sites"])[:1]:
             m = re.match(r"(C\d\d)\.(\S+) (.*)", cs)
             prop, rule, site = m.group(1), m.group(2), m.group(3)
